@@ -14,6 +14,7 @@ Proof.
   destruct (existsb bad_value_char (c_value c)); [discriminate|].
   destruct (attr_clean (c_name c) && opt_clean (c_domain c) && opt_clean (c_path c) && opt_clean (c_samesite c)) eqn:E;
     [|discriminate].
+  destruct (expiry_check c); try discriminate.
   destruct (key_ok (c_name c)) eqn:K; [|discriminate].
   repeat (apply andb_true_iff in E as [E ?]). repeat split; assumption.
 Qed.
@@ -82,6 +83,43 @@ Lemma dec_Z_nonempty : forall z, dec_Z z <> [].
 Proof.
   intros [|p|p]; simpl; try discriminate.
   unfold dec_N. cbn [dec_fuel]. destruct (N.pos p <? 10); [discriminate|apply dec_fuel_nonempty; discriminate].
+Qed.
+
+(* the decimal text denotes the number (in particular the fuel suffices) *)
+Lemma undec_dec_fuel : forall f n acc, n < 2 ^ N.of_nat f ->
+  fold_left (fun a c => 10 * a + (c - 48)) (dec_fuel f n acc) 0
+  = fold_left (fun a c => 10 * a + (c - 48)) acc n.
+Proof.
+  induction f as [|f IH]; intros n acc H.
+  - cbn in H. assert (n = 0) by lia. subst. reflexivity.
+  - cbn [dec_fuel]. destruct (n <? 10) eqn:E.
+    + apply N.ltb_lt in E. cbn [fold_left]. f_equal.
+      rewrite N.mod_small by exact E. lia.
+    + apply N.ltb_ge in E. rewrite IH.
+      * cbn [fold_left]. f_equal.
+        assert (D := N.div_mod n 10). remember (n / 10) as q. remember (n mod 10) as r. lia.
+      * rewrite Nat2N.inj_succ, N.pow_succ_r' in H.
+        apply N.div_lt_upper_bound; [discriminate|]. lia.
+Qed.
+
+Lemma undec_dec_N : forall n, undec (dec_N n) = n.
+Proof.
+  intros n. unfold undec, dec_N. rewrite undec_dec_fuel; [reflexivity|].
+  rewrite Nat2N.inj_succ, N2Nat.id, N.pow_succ_r'. assert (H := N.size_gt n). lia.
+Qed.
+
+Lemma undec_Z_dec_Z : forall z, undec_Z (dec_Z z) = z.
+Proof.
+  intros [|p|p]; [reflexivity| |].
+  - cbn [dec_Z]. unfold undec_Z.
+    assert (D := dec_fuel_digits (S (N.to_nat (N.size (N.pos p)))) (N.pos p) [] (Forall_nil _)).
+    fold (dec_N (N.pos p)) in D. assert (U := undec_dec_N (N.pos p)).
+    destruct (dec_N (N.pos p)) as [|c t] eqn:E; [cbn in U; discriminate|].
+    inversion D as [|? ? [H1 H2] _]; subst.
+    assert (c <> 45) by lia.
+    destruct c as [|q]; [lia|].
+    do 6 (destruct q as [q|q|]; try (rewrite U; reflexivity)); try (rewrite U; reflexivity); lia.
+  - cbn [dec_Z]. unfold undec_Z. rewrite undec_dec_N. reflexivity.
 Qed.
 
 Lemma dec_Z_nosemi : forall z, nochar 59 (dec_Z z).
@@ -168,9 +206,68 @@ Qed.
 Lemma opt_clean_nosemi : forall o, opt_clean o = true -> forall v, o = Some v -> nochar 59 v.
 Proof. intros o H v ->. apply attr_clean_nosemi, H. Qed.
 
-Lemma expires_ok_nosemi : forall c, expires_ok c = true -> forall v, c_expires c = Some v -> nochar 59 v.
+(* ---------------- format_timestamp produces attribute-safe text ---------------- *)
+Definition okc (x : N) : bool := negb (x =? 59) && header_char_ok x.
+Definition okstr (s : str) : Prop := forallb okc s = true.
+
+Lemma okstr_app : forall a b, okstr a -> okstr b -> okstr (a ++ b).
+Proof. intros a b Ha Hb. unfold okstr. rewrite forallb_app, Ha, Hb. reflexivity. Qed.
+
+Lemma digit_okc : forall k, k < 10 -> okc (48 + k) = true.
 Proof.
-  intros c H v E. unfold expires_ok in H. rewrite E in H. rewrite forallb_forall in H.
+  intros k Hk. assert (H : forall c, c < 256 -> implb ((48 <=? c) && (c <=? 57)) (okc c) = true).
+  { apply (sweep256 (fun c => implb ((48 <=? c) && (c <=? 57)) (okc c))). vm_compute. reflexivity. }
+  specialize (H (48 + k)). assert (E1 : (48 <=? 48 + k) = true) by (apply N.leb_le; lia).
+  assert (E2 : (48 + k <=? 57) = true) by (apply N.leb_le; lia). rewrite E1, E2 in H. apply H. lia.
+Qed.
+
+Lemma mod10_lt : forall n, n mod 10 < 10.
+Proof. intros n. apply N.mod_lt. discriminate. Qed.
+
+Lemma pad2_ok : forall n, okstr (pad2 n).
+Proof.
+  intros n. unfold okstr, pad2. cbn [forallb].
+  rewrite !digit_okc by apply mod10_lt. reflexivity.
+Qed.
+
+Lemma dec_N_ok : forall n, okstr (dec_N n).
+Proof.
+  intros n. unfold okstr. apply forallb_forall. intros c Hc.
+  assert (D := dec_fuel_digits (S (N.to_nat (N.size n))) n [] (Forall_nil _)). fold (dec_N n) in D.
+  rewrite Forall_forall in D. specialize (D c Hc). destruct D as [D1 D2].
+  replace c with (48 + (c - 48)) by lia. apply digit_okc. lia.
+Qed.
+
+Lemma pad4_ok : forall n, okstr (pad4 n).
+Proof.
+  intros n. unfold pad4. destruct (n <? 10000) eqn:E; [|apply dec_N_ok].
+  apply N.ltb_lt in E. unfold okstr. cbn [forallb].
+  rewrite !digit_okc; try apply mod10_lt; [reflexivity|].
+  apply N.div_lt_upper_bound; lia.
+Qed.
+
+Lemma nth_ok : forall (l : list str) d i, Forall okstr l -> okstr d -> okstr (nth i l d).
+Proof.
+  induction l as [|a l IH]; intros d i Hl Hd; destruct i; simpl; auto; inversion Hl; subst; auto.
+Qed.
+
+Lemma format_ts_ok : forall t, okstr (format_ts t).
+Proof.
+  intros t. unfold format_ts. destruct (civil (Z.to_N (t + epoch_offset) / 86400)) as [[y m] d].
+  repeat apply okstr_app; try apply pad2_ok; try apply pad4_ok; try reflexivity.
+  - apply nth_ok; [|reflexivity]. unfold wd_names. repeat constructor.
+  - apply nth_ok; [|reflexivity]. unfold mon_names. repeat constructor.
+Qed.
+
+Lemma exp_text_ok : forall c v, exp_text c = Some v -> okstr v.
+Proof.
+  intros c v H. unfold exp_text in H. destruct (c_expires c) as [t|]; [|discriminate].
+  destruct (t =? 0)%Z; [discriminate|]. inversion H. apply format_ts_ok.
+Qed.
+
+Lemma exp_text_nosemi : forall c v, exp_text c = Some v -> nochar 59 v.
+Proof.
+  intros c v H. apply exp_text_ok in H. unfold okstr in H. rewrite forallb_forall in H.
   apply Forall_forall. intros x Hx. apply H in Hx. apply andb_true_iff in Hx as [Hx _].
   apply negb_true_iff, N.eqb_neq in Hx. exact Hx.
 Qed.
@@ -183,13 +280,13 @@ Qed.
 Lemma Forall_app_intro : forall (P : str -> Prop) a b, Forall P a -> Forall P b -> Forall P (a ++ b).
 Proof. intros. apply Forall_app. split; assumption. Qed.
 
-Lemma attrs_nosemi : forall c, validate c = Ok -> expires_ok c = true ->
+Lemma attrs_nosemi : forall c, validate c = Ok ->
   Forall (nochar 59) (out_attrs c).
 Proof.
-  intros c Ha He. destruct (validate_inv c Ha) as (_ & _ & Hd & Hp & Hs & _).
+  intros c Ha. destruct (validate_inv c Ha) as (_ & _ & Hd & Hp & Hs & _).
   unfold out_attrs. repeat (apply Forall_app_intro; [|]).
   - apply opt_kv_nosemi; [apply const_nosemi; reflexivity|apply opt_clean_nosemi, Hd].
-  - apply opt_kv_nosemi; [apply const_nosemi; reflexivity|apply expires_ok_nosemi, He].
+  - apply opt_kv_nosemi; [apply const_nosemi; reflexivity|apply exp_text_nosemi].
   - destruct (c_httponly c); [constructor; [apply const_nosemi; reflexivity|constructor]|constructor].
   - apply opt_kv_nosemi; [apply const_nosemi; reflexivity|apply max_age_text_nosemi].
   - apply opt_kv_nosemi; [apply const_nosemi; reflexivity|apply opt_clean_nosemi, Hp].
@@ -197,10 +294,10 @@ Proof.
   - destruct (c_secure c); [constructor; [apply const_nosemi; reflexivity|constructor]|constructor].
 Qed.
 
-Lemma browser_attrs_output : forall c, validate c = Ok -> expires_ok c = true ->
+Lemma browser_attrs_output : forall c, validate c = Ok ->
   browser_attrs (output_string c) = map parse_av (map (cons 32) (out_attrs c)).
 Proof.
-  intros c Ha He. unfold browser_attrs, output_string.
+  intros c Ha. unfold browser_attrs, output_string.
   rewrite split_on_join; [reflexivity|].
   constructor; [|apply attrs_nosemi; assumption].
   apply nv_nosemi, key_ok_legal. apply validate_inv in Ha. tauto.
